@@ -123,6 +123,42 @@ fn literal_value(lit: &str) -> Option<String> {
     syn::parse_str::<syn::LitStr>(lit).ok().map(|l| l.value())
 }
 
+/// Is the run of digits around byte offset `at` an integer literal (with an optional unary minus in front, nothing else
+/// glued to it) whose value equals the XSD integer numeral `original` ([+-]?digits, surrounding white space allowed)?
+fn numeral_literal_equals(text: &str, at: usize, original: &str) -> bool {
+    let want = match original.trim().trim_start_matches('+').parse::<i128>() {
+        Ok(v) if original.trim().chars().skip(1).all(|c| c.is_ascii_digit()) => v,
+        _ => return false,
+    };
+    let b = text.as_bytes();
+    let (mut lo, mut hi) = (at, at);
+    while lo > 0 && (b[lo - 1].is_ascii_digit() || b[lo - 1] == b'_') {
+        lo -= 1;
+    }
+    while hi < b.len() && (b[hi].is_ascii_digit() || b[hi] == b'_') {
+        hi += 1;
+    }
+    if lo == hi || (hi < b.len() && (b[hi].is_ascii_alphabetic() || b[hi] == b'.')) {
+        return false;
+    }
+    let digits: String = text[lo..hi].chars().filter(|c| *c != '_').collect();
+    let Ok(mut value) = digits.parse::<i128>() else { return false };
+    // what stands in front of the digits (white space skipped): `-` negates, `+` or an identifier character spoils it
+    let mut k = lo;
+    while k > 0 && b[k - 1].is_ascii_whitespace() {
+        k -= 1;
+    }
+    if k > 0 {
+        match b[k - 1] {
+            b'-' => value = -value,
+            b'+' => return false,
+            c if c.is_ascii_alphanumeric() || c == b'_' || c == b'.' => return false,
+            _ => {}
+        }
+    }
+    value == want
+}
+
 /// classify every (case-insensitive) occurrence of `marker` in `text`; `original` is the text the schema supplied
 pub fn classify(text: &str, marker: &str, original: &str) -> Vec<Value> {
     let spans = lex(text);
@@ -147,7 +183,9 @@ pub fn classify(text: &str, marker: &str, original: &str) -> Vec<Value> {
             Some(s) if s.kind == Kind::LineComment => ("line_comment", Value::Bool(true)),
             Some(s) if s.kind == Kind::BlockComment => ("block_comment", Value::Bool(true)),
             Some(_) => ("char", Value::Bool(false)),
-            None => ("code", Value::Bool(false)),
+            // in code position: `value_equal` = the marker is part of a legal Rust integer literal expression (digits,
+            // optionally preceded by a unary minus - Rust has no unary plus) whose value is the original numeral's
+            None => ("code", Value::Bool(numeral_literal_equals(text, at, original))),
         };
         out.push(json!({"cls": cls, "value_equal": eq, "at": at}));
     }
